@@ -34,6 +34,22 @@ Theorem C12_locus_branch_lengths_sum :
 Proof. exact locus_branch_lengths_sum. Qed.
 Print Assumptions C12_locus_branch_lengths_sum.
 
+(* ---- the tie to phasegen/rewards.py by translation (gen/RewardsGen.v is regenerated from the source on every run) ---- *)
+From PG Require Import gen.NpState gen.RewardsGen proofs.GenRewardsEquiv.
+
+Theorem C12_rewards_py_deme_fractions_sum_to_one :
+  forall n s, (0 < total_lineages s)%nat -> Forall (fun m => length m = n_demes s) (lin s) ->
+    fold_right Rplus 0%R (map (fun d => gen_reward_get OpsR n (n_loci s) (RDeme d) s) (seq 0 (n_demes s))) = 1%R.
+Proof. exact source_deme_fractions_sum_to_one. Qed.
+Print Assumptions C12_rewards_py_deme_fractions_sum_to_one.
+
+Theorem C12_rewards_py_is_the_model :
+  forall (n nl : nat) (r : reward) (states : list state),
+    reward_ok n r = true -> Forall (fun s => n_loci s = nl) states ->
+    map (gen_reward_get OpsR n nl r) states = reward_vector OpsR n r states.
+Proof. exact gen_reward_vector_eq_R. Qed.
+Print Assumptions C12_rewards_py_is_the_model.
+
 From mathcomp Require Import all_ssreflect all_algebra.
 From PG Require Import proofs.ExpLaws.
 Set Implicit Arguments. Unset Strict Implicit. Unset Printing Implicit Defensive.
